@@ -38,14 +38,17 @@ def run_case(case, rec, cid):
     if st == "err":
         return False          # the library refuses this truncated point in this mode (e.g. week 53 where none exists)
     p = mk_tp(case["p"])
+    p_before = proj_tp(p)
     with cpu_watchdog(5, OpTimeout):
         def f():
             q = (t + p) if case["order"] == "t+p" else (p + t)
             q2 = t + q
             return dict(q=proj_tp(q), q2=proj_tp(q2))
         st, v = outcome(f)
+    if st == "ok" and proj_tp(p) != p_before:
+        rec.ev("Raised", cid, what="add_truncated changed its full operand in place", cls="OperandMutated", ve=False)
     if st == "ok":
-        rec.ev("TruncAdd", cid, t=case["t"], p=proj_tp(p), order=case["order"], ok=True, cls="", **v)
+        rec.ev("TruncAdd", cid, t=case["t"], p=p_before, order=case["order"], ok=True, cls="", **v)
     else:
         rec.ev("TruncAdd", cid, t=case["t"], p=proj_tp(p), order=case["order"], ok=False, cls=type(v).__name__,
                q=proj_tp(p), q2=proj_tp(p))
